@@ -205,6 +205,16 @@ def analyse():
     return findings, ok, run
 
 
+def analyse_all():
+    """PS-GLUE and LX-DRIVER together -> (findings, ok_paths, encoded functions, notes)"""
+    from vf.props import driver
+    f1, ok1, run1 = analyse()
+    f2, ok2, run2 = driver.analyse()
+    enc = dict(run1.encoded_digest())
+    enc.update(run2.encoded_digest())
+    return list(f1) + [("driver:" + c, d) for c, d in f2], ok1 + ok2, enc, sorted(set(run1.notes) | set(run2.notes))
+
+
 RELEVANT = {
     "C06": {"accepts-ill-formed"},
     "C07": {"rejects-well-formed"},
@@ -218,5 +228,6 @@ def witnesses_for(prop, findings):
     out = []
     for code, desc in findings:
         out.append({"kind": "glue_history" if code == "state-leak" else "glue_search", "classes": sorted(RELEVANT[prop]),
-                    "obligation": code, "why": "PS-GLUE(%s): %s" % (code, desc)})
+                    "obligation": code, "why": "%s(%s): %s" % ("LX-DRIVER" if code.startswith("driver:") else "PS-GLUE",
+                                                               code.replace("driver:", ""), desc)})
     return out
